@@ -50,6 +50,7 @@ type Stats struct {
 	Exhaustive                      bool // the frontier became empty before MaxDepth (all reachable states seen)
 	Capped                          bool // stopped by OutOfTime
 	Frontier                        []int
+	Retried                         int64 // executions repeated once because of an infrastructure error (see Explore)
 }
 
 type node struct {
@@ -111,12 +112,23 @@ func Explore(cfg Config) Stats {
 						continue
 					}
 					// replay the prefix once to learn the enabled events (and self-check determinism)
-					s := cfg.New()
+					var s Sys
 					var err error
-					for i, e := range n.trace {
-						if err = s.Apply(e); err != nil {
-							err = fmt.Errorf("event %d (%s): %w", i, e, err)
+					for attempt := 0; attempt < 2; attempt++ {
+						s = cfg.New()
+						err = nil
+						for i, e := range n.trace {
+							if err = s.Apply(e); err != nil {
+								err = fmt.Errorf("event %d (%s): %w", i, e, err)
+								break
+							}
+						}
+						if err == nil {
 							break
+						}
+						if attempt == 0 {
+							s.Close()
+							atomic.AddInt64(&st.Retried, 1)
 						}
 					}
 					atomic.AddInt64(&st.Executions, 1)
@@ -138,14 +150,28 @@ func Explore(cfg Config) Stats {
 					s.Close()
 					for _, ev := range evs {
 						tr := append(append([]string{}, n.trace...), ev)
-						c := cfg.New()
+						var c Sys
 						var ierr error
-						for i, e := range tr {
-							if ierr = c.Apply(e); ierr != nil {
-								ierr = fmt.Errorf("event %d (%s): %w", i, e, ierr)
+						// an execution that fails for an infrastructure reason (a settle deadline under
+						// machine load) is repeated once on a fresh system before it is believed; a
+						// genuine hang or nondeterminism fails again
+						for attempt := 0; attempt < 2; attempt++ {
+							c = cfg.New()
+							ierr = nil
+							for i, e := range tr {
+								if ierr = c.Apply(e); ierr != nil {
+									ierr = fmt.Errorf("event %d (%s): %w", i, e, ierr)
+									break
+								}
+								// monitors of the prefix were evaluated when the prefix was first explored
+							}
+							if ierr == nil {
 								break
 							}
-							// monitors of the prefix were evaluated when the prefix was first explored
+							if attempt == 0 {
+								c.Close()
+								atomic.AddInt64(&st.Retried, 1)
+							}
 						}
 						atomic.AddInt64(&st.Executions, 1)
 						atomic.AddInt64(&st.Transitions, 1)
